@@ -203,4 +203,6 @@ def run(rep, db, tier, seed):
     if not os.environ.get('C09_SKIP_KANI'):
         from props import kani_part
         kani_part.run(rep, PROP, tier)
+    from props import c09_canon
+    c09_canon.run(rep, db, tier)
     rep.extra['explanation'] = 'value-level losslessness of every ProtoFmt build/read pair on the real MIR (ideal leaf codecs) and of the std_conv converters by Kani; byte-level canonicity is outside the claim'
